@@ -2136,6 +2136,7 @@ var builtinImports = map[string]bool{
 	"github.com/goose-lang/primitive":                true,
 	"github.com/goose-lang/primitive/async_disk":     true,
 	"github.com/goose-lang/primitive/disk":           true,
+	"github.com/goose-lang/primitive/filesys":        true,
 	"github.com/mit-pdos/gokv/grove_ffi":             true,
 	"github.com/mit-pdos/gokv/time":                  true,
 	"github.com/mit-pdos/vmvcc/cfmutex":              true,
@@ -2164,6 +2165,10 @@ func (ctx Ctx) imports(d []ast.Spec) []coq.Decl {
 			// returned by Check (or the pkg.Types field from *packages.Package).
 			pkgNameIndex := strings.LastIndex(importPath, "/") + 1
 			pkgName := importPath[pkgNameIndex:]
+			if pn, ok := ctx.info.Implicits[s].(*types.PkgName); ok {
+				// the name in the package clause, when the type checker knows it
+				pkgName = pn.Imported().Name()
+			}
 
 			if strings.HasPrefix(pkgName, "trusted_") {
 				decls = append(decls, coq.ImportDecl{Path: importPath, Trusted: true})
